@@ -29,8 +29,29 @@ CHECKS["C02"] = (
     "reaching definitions over the CFG: loop-carried flow dependence of the wave state across the "
     "potential-configuration loop; fresh-copy requirement on the killing definition",
     "Decides the clause 'every configuration starts from the same incident wave' for all potentials, "
-    "detectors and chunkings at once.",
+    "detectors and chunkings at once, plus the seed-partition clauses (see c02.py).",
     "Numerical equality of the multislice results is not decided.",
+)
+
+CHECKS["C01"] = (
+    "lazy/eager twin comparator (same callee, term-equal arguments modulo dask-only keywords) over every "
+    "`if lazy` site of the package; class-contract analysis of objects rebuilt in dask blocks (C3 MRO, executed "
+    "constructor chain, getattr-resolvability of copied parameters); loop-carried reaching definitions",
+    "Decides necessary conditions of 'same values, both succeed or fail together' for every input at once: all "
+    "lazy/eager twins apply the same function to the same arguments; every constructor parameter that the block "
+    "reconstruction reads with getattr exists on instances of every concrete class and every attribute the "
+    "partition machinery reads is created by an executed constructor; no wave state leaks between potential "
+    "configurations; apply_transform's block function and eager arm call the same transform method.",
+    "Numerical equality of FFT pipelines and scheduler independence are not decided. Trusts dask's blockwise semantics.",
+)
+
+CHECKS["C19"] = (
+    "partition-completeness analysis (every constructor parameter reaches the rebuilt block or is in a reasoned "
+    "absorbed table) + same-slice rule over partition loops (term-equal slice bounds) + block-order pairing",
+    "Decides that blocks are cut with exactly the loop's own range from every parallel sequence (values/weights, "
+    "seeds, trajectories, positions, axis metadata per dimension), that lazy and eager arms iterate the same ranges, "
+    "and that no constructor parameter is silently defaulted when a block is rebuilt.",
+    "Trusts dask's concatenation order; GridScan/LineScan block geometry is decided under C20.",
 )
 
 NOT_APPLICABLE = {
